@@ -54,7 +54,8 @@ PROPS['C07'] = dict(
                'image into .code and the EEPROM image into .eeprom through that function, empty images included. Rendering by the '
                'ihex crate, CRLF conversion and file I/O are assumed and exercised only by a bounded native witness family.',
     level_note='assumes the ihex crate renders records correctly, std slice/Vec contracts, rewrite R5 (chunks/enumerate as index loop); '
-               'write_*_hex I/O wrapper covered by bounded witnesses only',
+               'write_*_hex I/O wrapper covered by bounded witnesses only (each written over an existing, longer file at the same path: the '
+               'result must be the new file alone)',
     technique='Verus loop invariant + postcondition against a spec-level Intel HEX reader, on the extracted function',
     verus=['hex'],
     witnesses=witnesses_c07,
@@ -165,6 +166,18 @@ def witnesses_enc(only_rel=False):
                 jobs.append('build\n' + src)
                 exp.append((addr, None if w is None else isa.le_bytes(w).hex()))
                 names.append('asm:%s' % src.strip().replace('\n', ' ; '))
+        # operands that reach the encoder through the grammar's literal forms and through macro arguments
+        extra = [('ldi r16, 0xFFFFFFFFFFFFFFFF', None), ('andi r20, $FFFFFFFFFFFFFFF0', None), ('ldi r16, 18446744073709551615', None),
+                 ('ldi r16, 0b' + '1' * 64, None), ('rjmp 0xFFFFFFFFFFFFFFFF', None), ('brne $FFFFFFFFFFFFFFFE', None), ('ldi r16, 0x7FFFFFFFFFFFFFFF', None),
+                 ('.macro ld2x\n ldi r16, @0*2\n.endm\n ld2x 120+10', None), ('.macro ld2x\n ldi r16, @0*2\n.endm\n ld2x 60+3', '0ee7'),
+                 ('.macro addw\n adiw r24, @0\n.endm\n addw (30+3)*2', None), ('.macro addw\n adiw r24, @0\n.endm\n addw (3+3)*2', '0c96'),
+                 ('.macro jr\n rjmp @0-1\n.endm\n jr 1+1', '00c0'), ('.macro bit\n sbi 5, @0\n.endm\n bit 4+4', None), ('.macro bit\n sbi 5, @0\n.endm\n bit 9-2', '2f9a')]
+        for text, want in extra:
+            if only_rel and not any(w in text for w in ('rjmp', 'brne')):
+                continue
+            jobs.append('build\n' + text + '\n')
+            exp.append((0, want))
+            names.append('asm:%s' % text.replace('\n', ' ; '))
         res = replay.run_jobs(jobs)
         out = []
         for name, job, (addr, e), r in zip(names, jobs, exp, res):
@@ -200,8 +213,8 @@ PROPS['C01'] = dict(
     level_note='assumes the grammar maps mnemonic/register text to the like-named enum variant (binding witnesses only), byteorder, '
                'and the leaf abstraction of expression operands; placement in the image is C02',
     technique='Kani contract harnesses (process == generated ISA oracle) on the extracted encoder + Verus structural contract',
-    verus=['encv', 'expr', 'ctxu'],
-    depends_on=['C05', 'C10'],   # an operand written as an expression or through a .def alias: its value (C05) and the alias lookup (C10) are presupposed
+    verus=['encv', 'expr', 'ctxu', 'pass1', 'pass2', 'link'],
+    depends_on=['C05', 'C10', 'C02'],   # operands written as expressions or through .def aliases presuppose their value (C05) and the alias lookup (C10); the word of a relative instruction depends on the address pass 2 hands to the encoder (C02)
     kani=[dict(slice='enc', harnesses=_enc_harnesses(), cex=_enc_cex)],
     cex_replay=_enc_witness_from_cex,
     witnesses=witnesses_enc(),
@@ -243,7 +256,8 @@ def witnesses_c03(tier, seed):
     base = witnesses_enc(only_rel=True)(tier, seed)
     rnd = random.Random(seed or 17)
     fill = [('nop', 1, 1), ('lds r16, 0x60', 2, 1), ('sts 0x60, r16', 2, 1), ('ldi r16, 1', 1, 1), ('.db 1, 2, 3', 2, 2), ('.dw 7', 1, 1), ('mov r16, r17', 1, 1),
-            ('jmp 0', 2, None), ('call 0', 2, None), ('.db "ab"', 1, 1), ('rjmp PC+1', 1, 1), ('.dd 1', 2, 2)]
+            ('jmp 0', 2, None), ('call 0', 2, None), ('.db "ab"', 1, 1), ('rjmp PC+1', 1, 1), ('.dd 1', 2, 2),
+            ('.db "\u00e9"', 1, 1), ('.db "a\u00e9"', 2, 2), ('.db "\u20ac", 1', 2, 2), ('.db "na\u00efve", 0', 4, 4)]
     jobs, exp, names = [], [], []
 
     def enc_br(mn, d):
@@ -289,7 +303,7 @@ PROPS['C03'] = dict(
                'lengths), which count for this property too.',
     level_note='grammar and expression parsing assumed; the composition pass 1 -> pass 2 is by matching clause pairs (unit LINK), as for C02',
     technique='Kani contract harnesses on the extracted relative-branch arms of process against the ISA oracle + Verus fold oracle of pass 2 (pc)',
-    verus=['encv', 'pass1', 'pass2', 'link', 'expr'],
+    verus=['encv', 'pass1', 'pass2', 'link', 'expr', 'data'],
     depends_on=['C02', 'C05'],   # a label target presupposes that the label's value is where its item lands (C02); a pc-relative expression presupposes its value (C05)
     kani=[dict(slice='enc', harnesses=_enc_harnesses(_is_rel_harness), cex=_enc_cex, also_for=['C03'])],
     cex_replay=_enc_witness_from_cex,
@@ -330,7 +344,19 @@ def witnesses_c05(tier, seed):
                 except expr_sem.Fail:
                     e = None
                 ws.append(('%s %s %s' % (ta, op, tb), e))
-    res = replay.run_jobs(['build\n.dq %s\n' % w[0] for w in ws])
+    # literals at and beyond the 64-bit range, every radix (grammar): 'absurd numbers' fail the build, they do not wrap
+    for lit, e in [('0x7FFFFFFFFFFFFFFF', expr_sem.I64_MAX), ('$7fffffffffffffff', expr_sem.I64_MAX), ('9223372036854775807', expr_sem.I64_MAX),
+                   ('0x8000000000000000', None), ('$FFFFFFFFFFFFFFFF', None), ('0xFFFFFFFFFFFFFFFF', None), ('9223372036854775808', None),
+                   ('18446744073709551615', None), ('0b' + '1' * 64, None), ('0b0' + '1' * 63, expr_sem.I64_MAX), ('exp2(62)', 1 << 62), ('exp2(63)', None),
+                   ('exp2(64)', None), ('1 << 63', -(1 << 63)), ('1 << 64', None)]:
+        ws.append((lit, e))
+    jobs = ['build\n.dq %s\n' % w[0] for w in ws]
+    # the same expressions handed through a macro argument (rendered by Display, pasted into the body, parsed again): the value the
+    # caller wrote must arrive, whatever stands next to the parameter in the body
+    via = [w for w in ws[:(300 if tier == 'quick' else 3000)] if w[1] is not None and abs(w[1]) < (1 << 61)]
+    for src, e in via:
+        jobs.append('build\n.macro m\n.dq @0\n.dq 1-@0\n.dq @0*2\n.endm\n m %s\n' % src)
+    res = replay.run_jobs(jobs)
     out = []
     for (src, e), r in zip(ws, res):
         if r.get('status') == 'ok':
@@ -339,6 +365,13 @@ def witnesses_c05(tier, seed):
             got = None if r.get('status') == 'err' else r.get('status')
         out.append(WitnessResult('expr:' + src, 'build\n.dq %s\n' % src, got == e, got if got is not None else 'error ' + r.get('err', '')[:100],
                                  e if e is not None else 'build fails', 'expr/'))
+    for (src, e), job, r in zip(via, jobs[len(ws):], res[len(ws):]):
+        want = [e, 1 - e, e * 2]
+        if r.get('status') == 'ok' and len(r['code']) == 48:
+            got = [int.from_bytes(bytes.fromhex(r['code'][16 * k:16 * k + 16]), 'little', signed=True) for k in range(3)]
+        else:
+            got = r.get('status') + ': ' + str(r.get('err', ''))[:80]
+        out.append(WitnessResult('expr-as-macro-argument:' + src, job, got == want, got, want, 'expr/'))
     return out
 
 
@@ -674,6 +707,12 @@ def witnesses_c13(tier, seed):
     extra = [('avr8l_label_after_sts', '.device ATtiny20\n sts 0x40, r16\ndone: rjmp done\n', '00a9ffcf'),
              ('avr8l_label_after_lds', '.device ATtiny20\n lds r16, 0x40\ndone: rjmp done\n', '00a1ffcf'),
              ('avr8l_branch_over_lds_sts', '.device ATtiny20\n breq done\n lds r17, 0x41\n sts 0x42, r17\ndone: nop\n', '11f011a112a90000')]
+    # the one-word form itself: every address of the reduced core's window and the first ones outside, three registers
+    for a in list(range(0x40, 0xc0)) + [0x3f, 0xc0, 0x100]:
+        for reg in (16, 21, 31):
+            for mn, txt, ors in (('lds', 'lds r%d, 0x%x' % (reg, a), [('reg', reg), ('expr', a)]), ('sts', 'sts 0x%x, r%d' % (a, reg), [('expr', a), ('reg', reg)])):
+                w = isa.encode(mn, ors, 0, True)
+                extra.append(('avr8l:%s' % txt, '.device ATtiny20\n %s\n' % txt, None if w is None else isa.le_bytes(w).hex()))
     base_extra = len(jobs)
     jobs += ['build\n' + e[1] for e in extra]
     res = replay.run_jobs(jobs)
@@ -693,7 +732,9 @@ def witnesses_c13(tier, seed):
                 out.append(WitnessResult('gate:%s:%s' % (d, text), jobs[idx[(d, i)]], ok, dict((k, r.get(k)) for k in ('status', 'code', 'err')), want, 'dev/'))
     for k, (name, src, want) in enumerate(extra):
         r = res[base_extra + k]
-        out.append(WitnessResult(name, 'build\n' + src, r.get('status') == 'ok' and r.get('code') == want, dict((k2, r.get(k2)) for k2 in ('status', 'code', 'err')), want, 'pass1/'))
+        ok = (r.get('status') == 'err') if want is None else (r.get('status') == 'ok' and r.get('code') == want)
+        if not ok or not name.startswith('avr8l:') or k % 37 == 0:
+            out.append(WitnessResult(name, 'build\n' + src, ok, dict((k2, r.get(k2)) for k2 in ('status', 'code', 'err')), want if want is not None else 'error', 'enc/' if name.startswith('avr8l:') else 'pass1/'))
     out.append(WitnessResult('gate:summary', '%d devices x %d instruction lines' % (len(devs), len(lines)), True, 'see the individual entries', 'all as the row flags say'))
     return out
 
@@ -708,7 +749,10 @@ PROPS['C13'] = dict(
     verus=['pass2', 'encv', 'pass1', 'link'],
     depends_on=['C02'],      # "the same machine code" for branches and label references presupposes the layout clauses: on a reduced core the
                              # one-word lds/sts must also be COUNTED as one word (ENCV #words / #length, PASS1 / PASS2 / LINK)
-    kani=[dict(slice='dev', harnesses=lambda tier: [h for h in _dev_harnesses(tier) if h[0] == 'dev_gate'])],
+    kani=[dict(slice='dev', harnesses=lambda tier: [h for h in _dev_harnesses(tier) if h[0] == 'dev_gate']),
+          # the one-word lds/sts of reduced cores: the lds / sts leaves of the encoder slice (both cores, all registers, all addresses)
+          dict(slice='enc', harnesses=_enc_harnesses(lambda h: re.match(r'enc_one_(lds|sts)_\d+$', h) is not None), cex=_enc_cex, also_for=['C13'])],
+    cex_replay=_enc_witness_from_cex,
     witnesses=witnesses_c13,
     functions=['Device::check_operation', 'Device::check_operands', 'Device::allow', 'Device::is_avr8l', 'pass_2_internal (gate call)', 'instruction::process'],
     explanation='spec/device_feat.py: flag -> removed instructions/forms, from the property text.',
@@ -950,7 +994,7 @@ def witnesses_c16(tier, seed):
     rnd = random.Random(seed or 13)
     ops = ['', 'r0', 'r31', 'r32', 'R16', 'X', 'X+', '-Y', 'Z+63', 'Z+64', 'Y+', '0', '-1', '255', '256', '65536', '4194304',
            '9223372036854775807', '99999999999999999999', '0x', '$FFFFFFFFFFFFFFFFF', '1<<64', '1/0', '-(-9223372036854775807-1)', 'nosuch',
-           '"str"', "'c'", '(', ')', ',', '@0', 'low(', 'exp2(99)', 'r1 r2', ';', '.', '#', 'pc', 'PC-1']
+           '"str"', "'c'", '(', ')', ',', '@0', 'low(', 'exp2(99)', 'r1 r2', ';', '.', '#', 'pc', 'PC-1', "''", "'", "'ab'", '""', '"', "'\\'"]
     heads = list(isa.MNEMONICS) + ['.' + d for d in ['byte', 'cseg', 'csegsize', 'db', 'def', 'device', 'dseg', 'dw', 'endm', 'endmacro', 'equ', 'eseg',
                                                       'exit', 'include', 'includepath', 'list', 'listmac', 'macro', 'nolist', 'org', 'set', 'define',
                                                       'else', 'elif', 'endif', 'error', 'if', 'ifdef', 'ifndef', 'message', 'dd', 'dq', 'undef',
@@ -967,6 +1011,13 @@ def witnesses_c16(tier, seed):
             jobs.append('build\n%s %s, %s\n' % (h, a, b))
         for _ in range(5 if tier == 'quick' else 60):
             jobs.append('build\n%s %s, %s, %s\n' % (h, rnd.choice(ops), rnd.choice(ops), rnd.choice(ops)))
+    # every mnemonic / directive / unknown name where it does not belong: inside a data and an EEPROM segment, inside a skipped branch, inside
+    # the body of a macro that is never called and of one that is (error paths format their messages there)
+    for h in heads:
+        for a in ('', 'r16', 'r16, 1'):
+            for pre in ('.dseg\n', '.eseg\n', '.if 0\n', '.macro never\n', '.macro m\n'):
+                post = {'.if 0\n': '.endif\n', '.macro never\n': '.endm\n', '.macro m\n': '.endm\n m\n'}.get(pre, '')
+                jobs.append('build\n%s %s %s\n%s' % (pre, h, a, post))
     multi = ['.equ a = b\n.equ b = a\n ldi r16, a\n', '.macro m\n m\n.endm\n m\n', '.macro a\n b\n.endm\n.macro b\n a\n.endm\n a\n', '.if 1\n' * 200,
              '.endif\n.else\n.elif 1\n.endm\n', '.macro x\n', '.dseg\n.byte 999999999999\n', '.org 0x7fffffff\n nop\n', '.eseg\n.org 4294967295\n.db 1\n',
              '.device ATtiny10\n.dseg\n.byte 33\n', '(' * 300 + '\n', '.db ' + ','.join(['1'] * 5000) + '\n', '.include "/nonexistent/file.inc"\n',
@@ -1009,6 +1060,9 @@ PROPS['C16'] = dict(
     functions=['all functions of DESIGN.md section 11'],
     explanation='Only untagged obligations (panic, call-site preconditions, decreases, invariants) and clauses tagged C16 count for this property.',
     assumptions=['preconditions that remain are structural facts proved by the producer (seg_wf2 from pass 1, wf of the parse context, device rows small)',
+                 'R1/R2 drop the arguments of error messages: that FORMATTING a message cannot panic (fmt::Display of operands, strum Display of '
+                 'Operation with its disabled variants) is assumed; exercised only by the hostile-input witnesses, which reach every error path '
+                 'with every mnemonic',
                  'machine memory bound mem_bound; slice length <= isize::MAX; usize = 64 bit'],
     bounded=['hostile-input witnesses: every mnemonic and directive with 0, 1 (38 texts), 2 (40 sampled / all 1444 pairs) and 3 sampled operands from a '
              'dictionary of valid, boundary and hostile texts, plus 23 multi-line programs and include trees (cyclic .equ, self-calling macros, '
